@@ -53,6 +53,10 @@ type mxConn struct {
 	// MX/TLS security level established for this connection.
 	mxLevel  module.MXLevel
 	tlsLevel module.TLSLevel
+
+	// Connection was established without running MX authentication policies
+	// (TLS-Required: No). It should not be reused for other messages.
+	policiesSkipped bool
 }
 
 func (c *mxConn) Usable() bool {
@@ -287,6 +291,8 @@ func (rd *remoteDelivery) newConn(ctx context.Context, domain string) (*mxConn, 
 		C:          smtpconn.New(),
 		domain:     domain,
 		lastUseAt:  time.Now(),
+
+		policiesSkipped: len(rd.policies) != len(rd.rt.policies),
 	}
 
 	conn.Dialer = rd.rt.dialer
